@@ -9,7 +9,9 @@
 #include "../common.h"
 #include <stdlib.h>
 #define VMAX 4
-typedef struct mvalue { int content; } mvalue;
+typedef struct mvalue { int content; unsigned char type; } mvalue;
+#define MVAL_TYPE(v) ((v).type)      /* receives the object (lowered *ptr) */
+#define VT_CODE(t) (t)
 typedef struct pvvec { mvalue *d[VMAX]; unsigned long n; } pvvec;
 #ifdef VERIF_CBMC
 #define M_ASSERT(c, msg) __CPROVER_assert(c, "copy model: " msg)
@@ -26,11 +28,13 @@ static inline mvalue *val_clone(const mvalue *v)
 #ifdef VERIF_CBMC
   __CPROVER_assume(r != 0);
 #endif
-  r->content = v->content; g_clones++;
+  r->content = v->content; r->type = v->type; g_clones++;
   return r;
 }
 static inline pvvec pvvec_new(void) { pvvec v; v.n = 0; for (unsigned i = 0; i < VMAX; ++i) v.d[i] = 0; return v; }
 static inline void pvvec_push_back(pvvec *v, mvalue *const *x) { M_ASSERT(v->n < VMAX, "copy fits"); if (v->n < VMAX) v->d[v->n++] = *x; }
+#define PVV_RESERVE(v, n) ((void)0)
+#define PVV_SIZE(v) ((v)->n)
 #define PVV_BEGIN(v) (&(v)->d[0])
 #define PVV_END(v) (&(v)->d[(v)->n <= VMAX ? (v)->n : VMAX])
 static inline pvvec *seq_new(const pvvec *v)
